@@ -66,13 +66,20 @@ TwoTargets == {[rules |-> <<Rule1(<<CPrint(rc, "min")>>), Rule3(<<CPrint(rc, "mi
 \* the same two rules with TWO conditions each, written the short way: the condition list stands once, in a global action
 \* document in front of the two rule documents (the driver writes the collection that way when glob is set)
 SharedConds == {[rules |-> <<Rule1(<<CPrint(rc, "min"), n_sel_a>>), Rule3(<<CPrint(rc, "min"), n_sel_a>>)>>,
-                 filters |-> <<MkFilter(1, fc, Ls(cat1, <<>>, <<>>), kind)>>, pipe |-> FALSE, glob |-> TRUE] :
+                 filters |-> <<MkFilter(1, fc, Ls(cat1, <<>>, <<>>), kind)>>, pipe |-> FALSE, glob |-> "cond"] :
                  rc \in {CId(n_sel), CSel("all", S_them), CSel("1", <<95,42>>)}, fc \in FilterConds, kind \in {"any", "name", "other"}}
 \* two rules with the SAME name and identifier (as the rules made from one global document, or a rule and its repetition):
 \* a filter that names them names them both
 SameIdent == {[rules |-> <<Rule1(<<CPrint(rc, "min")>>), [Rule3(<<CPrint(rc, "min")>>) EXCEPT !.name = r1name, !.uid = Uid(1)]>>,
                filters |-> <<MkFilter(1, fc, Ls(cat1, <<>>, <<>>), kind)>>, pipe |-> FALSE] :
                rc \in {CId(n_sel), CSel("all", S_them)}, fc \in FilterConds, kind \in {"name", "id", "idU"}}
+\* a rule of another product in front, then a global action document that gives the two rules behind it their product, then the
+\* filter (category only): global action documents shape RULE documents - the filter's log source is the one it was written with
+RuleX(rc) == [name |-> <<114,120>>, uid |-> Uid(4), ls |-> Ls(cat1, prod2, <<>>),
+              doc |-> [dets |-> [k \in 1..Len(RuleNames) |-> Det(<<88,95>>, RuleNames[k])], conds |-> rc]]
+GlobLs == {[rules |-> <<RuleX(<<CPrint(rc, "min")>>), Rule1(<<CPrint(rc, "min")>>), Rule3(<<CPrint(rc, "min")>>)>>,
+            filters |-> <<MkFilter(1, fc, Ls(cat1, <<>>, <<>>), "any")>>, pipe |-> FALSE, glob |-> "ls"] :
+            rc \in {CId(n_sel), CSel("all", S_them)}, fc \in FilterConds}
 \* a rule whose NAME reads as a UUID (32 hexadecimal digits), named by the filter by that name
 hexn == <<100, 101, 97, 100, 98, 101, 101, 102, 100, 101, 97, 100, 98, 101, 101, 102, 100, 101, 97, 100, 98, 101, 101, 102, 100, 101, 97, 100, 98, 101, 101, 102>>
 HexName == {[rules |-> <<[Rule1(<<CPrint(rc, "min")>>) EXCEPT !.name = hexn], Rule2>>,
@@ -83,7 +90,7 @@ KwNamed == {[rules |-> <<Rule1(<<CPrint(rc, "min")>>), Rule2>>, filters |-> <<Mk
               fc \in {CNot(CId(n_all)), CId(n_any), CBin("cand", CId(n_sel), CNot(CId(n_of))), CNot(CId(n_one)),
                       CSel("1", <<97,42>>), CBin("cor", CSel("all", S_them), CId(n_all))}}
 NoPipe(S) == {c @@ [pipe |-> FALSE] : c \in S}
-ASSUME LET S == SetToSeq(TwoTargets \cup SharedConds \cup SameIdent \cup NoPipe(Single \cup TwoConds \cup HexName \cup KwNamed \cup Underscore \cup (IF Quick THEN RandomSubset(150, Stacked) ELSE Stacked)))
+ASSUME LET S == SetToSeq(TwoTargets \cup SharedConds \cup SameIdent \cup GlobLs \cup NoPipe(Single \cup TwoConds \cup HexName \cup KwNamed \cup Underscore \cup (IF Quick THEN RandomSubset(150, Stacked) ELSE Stacked)))
        IN  ndJsonSerialize(IOEnv.VERIF_OUT, [i \in 1..Len(S) |-> [id |-> i] @@ S[i]])
 Init == x = 0
 Next == UNCHANGED x
